@@ -673,9 +673,13 @@ class OrthorectificationIterator(object):
                 this_ortho_bounds[0] - self.ortho_bounds[0], this_ortho_bounds[1] - self.ortho_bounds[0],
                 this_ortho_bounds[2] - self.ortho_bounds[2], this_ortho_bounds[3] - self.ortho_bounds[2],
                 self.ortho_bounds[1] - self.ortho_bounds[0], self.ortho_bounds[3] - self.ortho_bounds[2]))
-        ortho_data = self._get_orthorectified_version(
-            this_ortho_bounds, this_pixel_bounds,
-            self._calculator[this_pixel_bounds[0]:this_pixel_bounds[1], this_pixel_bounds[2]:this_pixel_bounds[3]])
+        if this_pixel_bounds[0] == this_pixel_bounds[1] or this_pixel_bounds[2] == this_pixel_bounds[3]:
+            # NB: this block entirely misses the image, so there is nothing to fetch and the result is all fill
+            this_data = numpy.zeros((0, 0), dtype='complex64')
+        else:
+            this_data = self._calculator[
+                this_pixel_bounds[0]:this_pixel_bounds[1], this_pixel_bounds[2]:this_pixel_bounds[3]]
+        ortho_data = self._get_orthorectified_version(this_ortho_bounds, this_pixel_bounds, this_data)
         # determine the relative image size
         start_indices = (this_ortho_bounds[0] - self.ortho_bounds[0],
                          this_ortho_bounds[2] - self.ortho_bounds[2])
